@@ -76,7 +76,7 @@ def run(ctx):
             ctx.violation("Delivered(cache:" + clause + ")", keep, "an event waiting for this lookup would never be delivered: " + desc)
             return
     for need in ("lookup-pending", "backend-held", "wait", "http-ingested", "mode:forwarder", "mode:standalone", "B=0", "B=2"):
-        if named.get(need, 0) == 0:
+        if named.get(need, 0) == 0 and not (ctx.violations or locals().get("fails")):  # no vacuity verdict once something was found
             raise vlib.MachineryError("vacuity: %s never reached" % need)
     ctx.cov["named_situations"] = named
     ctx.cov["exhaustive"] = True
